@@ -43,7 +43,7 @@ sys.path.insert(0, VERIF)
 import harnesses as H  # noqa: E402
 
 MEM_BUDGET_GB = int(os.environ.get("VERIF_MEM_GB", "52"))
-MAX_PAR = int(os.environ.get("VERIF_JOBS", "12"))
+MAX_PAR = int(os.environ.get("VERIF_JOBS", "14"))
 
 STUB_LINES = {
     "io": "core::io::CustomOwner",
@@ -267,7 +267,7 @@ def limits(mem_gb, big_stack):
     def f():
         if big_stack:
             resource.setrlimit(resource.RLIMIT_STACK, (resource.RLIM_INFINITY, resource.RLIM_INFINITY))
-        lim = int(mem_gb * 1.6 * (1 << 30))
+        lim = int(max(mem_gb * 2.5, 32) * (1 << 30))  # address-space cap (protective only; the gate budgets mem_gb)
         resource.setrlimit(resource.RLIMIT_AS, (lim, lim))
         os.setsid()
     return f
@@ -312,7 +312,8 @@ def run_harness(h, ctx, playback=False, only_props=None):
         r.update({"harness": h["name"], "status": status, "rc": p.returncode, "wall_s": round(time.time() - t0, 1), "log": logp,
                   "cmd": " ".join(cmd), "from_cache": False})
         r["playback_tests"] = re.findall(r"```\n(.*?)```", text, re.S)
-        if status == "done" and r["verdict"] in ("SUCCESSFUL", "FAILED") and not r["cbmc_error"]:
+        solver_failed = any(c["status"] in ("ERROR", "UNDETERMINED") for c in r["checks"])
+        if status == "done" and r["verdict"] in ("SUCCESSFUL", "FAILED") and not r["cbmc_error"] and not solver_failed:
             os.makedirs(CACHE, exist_ok=True)
             with open(cpath, "w") as f:
                 json.dump(r, f)
@@ -478,7 +479,7 @@ def main():
         return 0
     prop = a.prop
     t0 = time.time()
-    hs = [h for h in H.HARNESSES if prop in h["props"] and (h["tier"] == "quick" or a.tier == "thorough")]
+    hs = [h for h in H.HARNESSES if prop in h["props"] and (a.tier == "thorough" or (h["tier"] == "quick" and prop not in h.get("thorough_for", [])))]
     if a.only:
         hs = [h for h in hs if h["name"] in a.only.split(",")]
     wit = [h for h in H.HARNESSES if prop in h.get("witness_for", [])]
